@@ -2,20 +2,23 @@
 # seedrerun.sh <seeded-dir-name> <check ids...>: apply a stored seeded change to /repo,
 # run the given quick checks, undo it, and merge the result into meta.json.
 set -u
+VROOT=${VROOT:-$(cd "$(dirname "$0")/.." && pwd)}
 N=$1; shift
-D=/verif/seeded/$N
+D=$VROOT/seeded/$N
 export GOFLAGS=-mod=mod GOPROXY=off GOSUMDB=off GOTOOLCHAIN=local
-[ -z "$(git -C /repo status --short)" ] || { echo "/repo not clean"; exit 3; }
-git -C /repo apply $D/patch.diff || { echo "cannot apply"; exit 3; }
+TARGET=${SEED_TARGET:-/repo}
+[ "$TARGET" = /repo ] || export VERIF_REPO=$TARGET
+[ -z "$(git -C $TARGET status --short)" ] || { echo "$TARGET not clean"; exit 3; }
+git -C $TARGET apply $D/patch.diff || { echo "cannot apply"; exit 3; }
 detected=""
 for c in "$@"; do
-  cd /verif && timeout 3000 ./check $c quick > /tmp/seed_check_$c.log 2>&1; rc=$?
+  cd $VROOT && timeout 3000 ./check $c quick > /tmp/seed_check_$c.log 2>&1; rc=$?
   nv=$(grep -c '^VIOLATION' /tmp/seed_check_$c.log)
   echo "$N check $c: exit=$rc violations=$nv"
   grep -m2 'counterexample' /tmp/seed_check_$c.log | cut -c1-300
   if [ $rc -eq 1 ] && [ $nv -gt 0 ]; then detected="$detected $c"; fi
 done
-git -C /repo checkout -- .
+git -C $TARGET checkout -- .
 python3 - <<PY
 import json
 p="$D/meta.json"; m=json.load(open(p))
